@@ -2,16 +2,22 @@ package props
 
 import (
 	"bytes"
+	"crypto/aes"
+	"crypto/cipher"
+	"crypto/sha256"
 	"encoding/hex"
 	"fmt"
 	"os"
 	"reflect"
 	"sync/atomic"
 
+	"github.com/ontio/ontology-crypto/ec"
 	"github.com/ontio/ontology-crypto/keypair"
 	s "github.com/ontio/ontology-crypto/signature"
 	"github.com/ontio/ontology/account"
 	"github.com/ontio/ontology/core/types"
+	"golang.org/x/crypto/ed25519"
+	"golang.org/x/crypto/scrypt"
 
 	"ontosim/simkit"
 	"ontosim/world"
@@ -24,7 +30,7 @@ func init() {
 	simkit.Register(&simkit.Prop{
 		ID:             "C38",
 		Desc:           "wallet file persistence and password binding of account.ClientImpl against a list-of-records model",
-		Rule:           "a run = one real wallet file under the scratch directory, opened by the real ClientImpl, and 1..12 generated operations (create via NewAccount, add an externally encrypted account via ImportAccount, re-import a deleted / foreign account, delete with right or wrong password, set default, relabel from a small colliding label set, change password with right or wrong old password, change signature scheme, drop the client and reopen the file, open another wallet file with other key-derivation parameters in the same process); key types ECDSA P-224/256/384/521, SM2, Ed25519; most runs use a wallet whose scrypt section is cheap (so that hundreds of decryptions fit in a run), some the default parameters; after every operation and every reopen the account list, metadata and decryptability are compared with the model; non-trivial = at least 2 accounts existed at some point, at least one reopen happened after a mutation and at least one password or default/label/scheme change was applied; distinct = distinct event-trace hash",
+		Rule:           "a run = one real wallet file under the scratch directory, opened by the real ClientImpl, and 1..12 generated operations (create via NewAccount, add an externally encrypted account via ImportAccount (one in six in the legacy aes-256-ctr protection of old wallets), re-import a deleted / foreign account, delete with right or wrong password, set default, relabel from a small colliding label set, change password with right or wrong old password, change signature scheme, drop the client and reopen the file, open another wallet file with other key-derivation parameters in the same process); key types ECDSA P-224/256/384/521, SM2, Ed25519; most runs use a wallet whose scrypt section is cheap (so that hundreds of decryptions fit in a run), some the default parameters; after every operation and every reopen the account list, metadata and decryptability are compared with the model; non-trivial = at least 2 accounts existed at some point, at least one reopen happened after a mutation and at least one password or default/label/scheme change was applied; distinct = distinct event-trace hash",
 		Real:           []string{"account (ClientImpl, WalletData Save/Load, AccountData, AccountMetadata)", "ontology-crypto keypair (key generation, scrypt + AES-GCM protected keys) and signature schemes", "core/types.AddressFromPubKey", "the file system (tmpfs scratch directory)"},
 		Stub:           []string{"none: the harness is only the operation generator and the model"},
 		Assumptions:    []string{"the outcome (error / success) of an operation is taken from the real client except where the property fixes it: a wrong password must be refused by GetAccount*, DeleteAccount and ChangePassword", "an account whose address is already in the wallet is never imported again (the API does not define that case)", "no crash faults: every Save completes"},
@@ -146,6 +152,29 @@ func (w *c38World) freshKey(kind c38KeyKind, scheme s.SignatureScheme, label str
 	addr := a20.ToBase58()
 	prot, err := keypair.EncryptWithCustomScrypt(pri, addr, pw, w.scrypt)
 	w.c.Must(err, "c38 encrypt key")
+	if w.c.Tape.Prob(1, 6) {
+		// an account exported by an old wallet: the legacy "aes-256-ctr" protection (salt from the
+		// address, no authentication tag), which DecryptWithCustomScrypt still accepts
+		var plain []byte
+		switch k := pri.(type) {
+		case *ec.PrivateKey:
+			plain = k.D.Bytes()
+		case ed25519.PrivateKey:
+			plain = []byte(k)
+		}
+		if plain != nil {
+			d1 := sha256.Sum256([]byte(addr))
+			d2 := sha256.Sum256(d1[:])
+			dkey, err := scrypt.Key(pw, d2[:4], w.scrypt.N, w.scrypt.R, w.scrypt.P, w.scrypt.DKLen)
+			w.c.Must(err, "c38 scrypt")
+			block, err := aes.NewCipher(dkey[len(dkey)-32:])
+			w.c.Must(err, "c38 aes")
+			ct := make([]byte, len(plain))
+			cipher.NewCTR(block, dkey[:16]).XORKeyStream(ct, plain)
+			prot.EncAlg, prot.Key, prot.Salt = "aes-256-ctr", ct, nil
+			w.c.Probe("legacy_ctr_account")
+		}
+	}
 	return &c38Pooled{
 		meta: &account.AccountMetadata{Label: label, KeyType: prot.Alg, Curve: prot.Param["curve"], Address: addr,
 			PubKey: hex.EncodeToString(keypair.SerializePublicKey(pub)), SigSch: scheme.Name(), Salt: prot.Salt, Key: prot.Key, EncAlg: prot.EncAlg, Hash: prot.Hash},
